@@ -22,10 +22,11 @@ fn known() -> &'static Vec<(String, Vec<(String, String)>)> {
     })
 }
 
-fn judge<P: Prop>(input: P::Input) {
+/// Evaluates the oracle on one input; `Some(fail)` for a violation that is not a listed known finding.
+fn evaluate<P: Prop>(input: &P::Input) -> Option<Fail> {
     guard::install_panic_hook();
     let mut obs = Obs::default();
-    let verdict: Result<(), Fail> = match guard::catch(|| P::eval(&input, &mut obs)) {
+    let verdict: Result<(), Fail> = match guard::catch(|| P::eval(input, &mut obs)) {
         Ok(v) => v,
         Err(p) if p.in_harness() => {
             eprintln!("FUZZ-HARNESS-BUG property={} {}", P::ID, p.describe());
@@ -33,24 +34,40 @@ fn judge<P: Prop>(input: P::Input) {
         }
         Err(p) => Err(Fail::new(format!("panic@{}:{}", p.file.rsplit('/').next().unwrap_or(""), p.line), format!("library code panicked: {}", p.describe()))),
     };
-    if let Err(f) = verdict {
-        if known().iter().any(|(id, sigs)| id == P::ID && sigs.iter().any(|(s, _)| *s == f.sig)) {
-            return;
+    match verdict {
+        Ok(()) => None,
+        Err(f) => {
+            if known().iter().any(|(id, sigs)| id == P::ID && sigs.iter().any(|(s, _)| *s == f.sig)) {
+                None
+            } else {
+                Some(f)
+            }
         }
-        let body = P::to_kv(&input).to_text();
-        let h = crate::util::fnv64(body.as_bytes());
-        let dir = replay_dir();
-        let _ = std::fs::create_dir_all(&dir);
-        let path = format!("{}/{}-fuzz-{:016x}.case", dir, P::ID, h);
-        let mut text = format!("# property={} found by the libFuzzer target\n# signature={}\n", P::ID, f.sig);
-        for l in f.msg.lines() {
-            text.push_str(&format!("# {}\n", l));
-        }
-        text.push_str(&body);
-        let _ = std::fs::write(&path, text);
-        let _ = writeln!(std::io::stdout(), "FUZZ-VIOLATION property={} replay={}", P::ID, path);
-        let _ = std::io::stdout().flush();
-        std::process::abort();
+    }
+}
+
+/// Writes the replay file of a violating input, prints the FUZZ-VIOLATION line and aborts (libFuzzer
+/// then saves its own artifact too; the reproducible unit is the replay file).
+fn report<P: Prop>(input: &P::Input, f: &Fail, note: &str) -> ! {
+    let body = P::to_kv(input).to_text();
+    let h = crate::util::fnv64(body.as_bytes());
+    let dir = replay_dir();
+    let _ = std::fs::create_dir_all(&dir);
+    let path = format!("{}/{}-fuzz-{:016x}.case", dir, P::ID, h);
+    let mut text = format!("# property={} found by the libFuzzer target{}\n# signature={}\n", P::ID, note, f.sig);
+    for l in f.msg.lines() {
+        text.push_str(&format!("# {}\n", l));
+    }
+    text.push_str(&body);
+    let _ = std::fs::write(&path, text);
+    let _ = writeln!(std::io::stdout(), "FUZZ-VIOLATION property={} replay={}", P::ID, path);
+    let _ = std::io::stdout().flush();
+    std::process::abort();
+}
+
+fn judge<P: Prop>(input: P::Input) {
+    if let Some(f) = evaluate::<P>(&input) {
+        report::<P>(&input, &f, "");
     }
 }
 
@@ -336,7 +353,7 @@ use crate::engine::Tier;
 use proptest::strategy::{BoxedStrategy, Strategy, ValueTree};
 use proptest::test_runner::{Config, RngAlgorithm, TestRng, TestRunner};
 
-fn case_from_bytes<P: Prop>(data: &[u8]) -> Option<P::Case>
+fn tree_from_bytes<P: Prop>(data: &[u8]) -> Option<Box<dyn ValueTree<Value = P::Case>>>
 where
     P::Case: 'static,
 {
@@ -362,8 +379,8 @@ where
         }
         let rng = TestRng::from_seed(RngAlgorithm::PassThrough, &src);
         let mut runner = TestRunner::new_with_rng(Config { failure_persistence: None, max_local_rejects: 32, ..Config::default() }, rng);
-        // a filter that keeps rejecting (the byte string ran out, so every draw is zero) is not a case
-        s.new_tree(&mut runner).ok().map(|t| t.current())
+        // a filter that keeps rejecting is not a case
+        s.new_tree(&mut runner).ok()
     })
 }
 
@@ -371,16 +388,50 @@ fn gen_input<P: Prop>(data: &[u8]) -> Option<P::Input>
 where
     P::Case: 'static,
 {
-    case_from_bytes::<P>(data).map(|c| P::lower(&c))
+    tree_from_bytes::<P>(data).map(|t| P::lower(&t.current()))
 }
 
+/// Evaluates the case the bytes decode to; a violation is shrunk structurally with proptest's own
+/// simplify / complicate protocol (same signature required, at most 4000 evaluations) before the
+/// replay file is written.
 fn gen_judge<P: Prop>(data: &[u8])
 where
     P::Case: 'static,
 {
-    if let Some(i) = gen_input::<P>(data) {
-        judge::<P>(i);
+    let mut tree = match tree_from_bytes::<P>(data) {
+        Some(t) => t,
+        None => return,
+    };
+    let input = P::lower(&tree.current());
+    let first = match evaluate::<P>(&input) {
+        None => return,
+        Some(f) => f,
+    };
+    let mut best = (input, first);
+    let mut evals = 0usize;
+    if tree.simplify() {
+        loop {
+            evals += 1;
+            if evals > 4000 {
+                break;
+            }
+            let cand = P::lower(&tree.current());
+            match evaluate::<P>(&cand) {
+                Some(f) if f.sig == best.1.sig => {
+                    best = (cand, f);
+                    if !tree.simplify() {
+                        break;
+                    }
+                }
+                _ => {
+                    if !tree.complicate() {
+                        break;
+                    }
+                }
+            }
+        }
     }
+    report::<P>(&best.0, &best.1, &format!(" t_gen (shrunk in {} evaluations)", evals));
 }
 
 fn gen_replay<P: Prop>(data: &[u8]) -> Option<String>
